@@ -1803,18 +1803,18 @@ class VM:
             return separator.join(str(arr.get_index(i)) for i in range(arr.length))
 
         def subarray_fn(*args):
-            begin = int(to_number(args[0])) if len(args) > 0 else 0
-            end = int(to_number(args[1])) if len(args) > 1 else arr.length
+            def relative_index(value, default):
+                # ToIntegerOrInfinity (NaN is 0), relative to the end when
+                # negative, clamped to [0, length]
+                if value is UNDEFINED:
+                    return default
+                index = to_integer_or_infinity(self._to_number(value))
+                if index < 0:
+                    index = max(0, arr.length + index)
+                return int(min(index, arr.length))
 
-            # Handle negative indices
-            if begin < 0:
-                begin = max(0, arr.length + begin)
-            if end < 0:
-                end = max(0, arr.length + end)
-
-            # Clamp to bounds
-            begin = min(begin, arr.length)
-            end = min(end, arr.length)
+            begin = relative_index(args[0], 0) if len(args) > 0 else 0
+            end = relative_index(args[1], arr.length) if len(args) > 1 else arr.length
 
             # A new view of the same type over the same buffer
             return type(arr)(
